@@ -145,7 +145,7 @@ def run(chk: framework.Check):
     rng = chk.rng
     G = gen.Gen(rng)
     drv = lean.Driver()
-    n_worlds = 60 if chk.tier == "quick" else 600
+    n_worlds = 400 if chk.tier == "quick" else 4000
     corr_fail = []
     for wi in range(n_worlds):
         w = G.world()
@@ -181,6 +181,12 @@ def run(chk: framework.Check):
                     chk.count(key, nontrivial=not isinstance(ty, str),
                               sample={"cfg": cfg_name(cfg), "type": terms.ty_sx(ty), "value": terms.canon_sx(x), "model": rm})
                     chk.note("cfg:" + cfg_name(cfg), "ty:" + (ty if isinstance(ty, str) else ty[0]))
+                    # ---- do the theorems' hypotheses hold for this case, and what does the model say about primitivity
+                    sc = drv.ask("C03SCOPE %s %s %s" % (terms.cfg_sx(cfg), terms.ty_sx(ty), terms.obj_sx(x)))
+                    in_scope = sc.startswith("(1 1 ")
+                    chk.note("theorem-hypotheses-hold" if in_scope else "outside-theorem-hypotheses:" + sc)
+                    if in_scope and not sc.endswith(" 1)"):
+                        chk.violation("model contradicts theorem C03_primitive (driver/model out of sync): " + sc, case, found_input=False)
                     # ---- oracle on the implementation
                     bad = oracle(w, cfg, ty, x, ri)
                     if bad:
